@@ -46,7 +46,11 @@ func c08Value(r *emit.Rand) string {
 			b[i] = al[r.Intn(len(al))]
 		}
 	}
-	return string(b)
+	s := strings.Trim(string(b), " ")
+	if s == "" {
+		s = "v"
+	}
+	return s
 }
 
 func cloneHeader(h http.Header) http.Header {
